@@ -176,6 +176,18 @@ def buddy(ctx):
             ctx.violation("buddy:%s" % x["event"].split('"')[3], "allocator trace is not a behaviour of Buddy at %s" % x["event"][:160], x["path"])
         os.remove(t)
     cexe = ctx.harness("cache_drv", ["cache/cache_drv.cpp"])
+    # long streams of distinct keys, no clear(): what an evicted entry leaves behind must not accumulate
+    for be, lim, cnt, vs in ([("process", 4, 15000, 100), ("thread", 3, 4000, 100)] if ctx.quick else [("process", 4, 80000, 100), ("process", 8, 40000, 300), ("process", 2, 60000, 40), ("thread", 4, 40000, 100)]):
+        t = os.path.join(ctx.work, "stream-%s-%d.ndjson" % (be, lim))
+        rc, out, err = ctx.run_harness(cexe, ("stream", be, lim, 0, cnt, vs), trace=t, timeout=600)
+        if rc != 0:
+            rp = os.path.join(ctx.replays, "stream-crash-%s.txt" % be)
+            open(rp, "w").write(err[-3000:])
+            ctx.violation("stream:crash", "distinct-key stream driver died: %s" % err[-200:], rp)
+            continue
+        for x in ctx.validate("Cache/RefillTrace.tla", "RefillTrace.cfg", t):
+            ctx.violation("stream:%s" % be, "cache does not release what evicted entries leave behind: %s" % x["event"][:160], x["path"])
+        os.remove(t)
     for vsize in ((700,) if ctx.quick else (100, 700, 5000, 40000)):
         t = os.path.join(ctx.work, "refill-%d.ndjson" % vsize)
         rc, out, err = ctx.run_harness(cexe, ("refill", "process", 4000, 5, 12 if ctx.quick else 60, vsize), trace=t, timeout=600)
